@@ -1,3 +1,4 @@
+import Ebu.Spec.Flow
 import Ebu.Proofs.Shutdown
 import Ebu.Model.Inflight
 import Ebu.Generated.Consts
@@ -71,5 +72,13 @@ theorem shutdown_spec (s s' : Ebu.Shutdown.S) (pick : Bool) (o : Ebu.Shutdown.Ou
 theorem shutdown_blocks_iff (s : Ebu.Shutdown.S) (pick : Bool) :
     Ebu.Shutdown.shutdown s pick = none ↔ (s.inflight ≠ 0 ∧ s.cancelled = false) :=
   Ebu.Shutdown.shutdown_blocks_iff s pick
+
+/-! ### obligations on the control flow of the CURRENT source (`Ebu/Generated/Flow.lean`, regenerated from /repo on every run) -/
+
+/-- OBLIGATION: M2's `inflight + 1` happens in the publisher before the `go` statement (outside the goroutine, once per async dispatch) and `inflight - 1` is deferred first thing inside the goroutine -/
+theorem flow_inflight_brackets_goroutine : Ebu.Flow.inflightBracketsGoroutine = true := by decide +kernel
+
+/-- OBLIGATION: `Shutdown` waits in a goroutine that then closes `done`; the store is closed only in the `<-done` branch – never in the `<-ctx.Done()` branch, never in the goroutine -/
+theorem flow_shutdown_shape : Ebu.Flow.shutdownShape = true := by decide +kernel
 
 end Ebu.Props.C06
